@@ -21,6 +21,7 @@ func checkC01(c *Check) {
 	c.oneOpenPerConnection("C01.6 capabilities-once-per-open")
 	c.disableEnablePairing("C01.7 fsm-table-consistent")
 	c.fsmSlotTypestate("C01.7 fsm-slot-typestate")
+	c.peerConfigVerbatim("C01.7 one-manager-per-peer")
 	c.checkOwnership("C01.7 fsm-table-owned-by-manager")
 	c.peerStopDisablesBoth("C01.8 stop-delivers-onclose")
 	c.serveShutdown("C01.8 stop-delivers-onclose")
